@@ -43,6 +43,7 @@ def listByName : String → Option String
   | "instanceWrites" => some (showCodes Gen.C18Effects.instanceWrites)
   | "sharedTypes" => some (showCodes Gen.C18Effects.sharedTypes)
   | "sharedTypeWrites" => some (showPairs Gen.C18Effects.sharedTypeWrites)
+  | "aliasFieldWrites" => some (showPairs Gen.C18Effects.aliasFieldWrites)
   | "syncUses" => some (showPairs Gen.C18Effects.syncUses)
   | "goStmts" => some (showCodes Gen.C18Effects.goStmts)
   | "chanOps" => some (showCodes Gen.C18Effects.chanOps)
